@@ -37,7 +37,12 @@ type Model struct {
 	Epoch  int          // number of resets so far
 	// Creations / Removals since the last reset (C02).
 	Creations, Removals int
+	// Res: which of the NumRes resource types currently has a value.
+	Res [NumRes]bool
 }
+
+// NumRes is the number of resource types every simulated world registers.
+const NumRes = 3
 
 // Change describes what an operation did to one entity.
 type Change struct {
@@ -267,6 +272,7 @@ func (m *Model) Reset() {
 	m.NAlive = 0
 	m.Epoch++
 	m.Creations, m.Removals = 0, 0
+	m.Res = [NumRes]bool{}
 }
 
 // --- filters ----------------------------------------------------------------------------------
